@@ -7,10 +7,13 @@ package ledger
 // The real Expand methods run on a Store whose bun handle is opaque (the builder calls are recorded, nothing is sent).
 
 import (
+	"sort"
+
 	"github.com/uptrace/bun"
 	"github.com/uptrace/bun/dialect/pgdialect"
 
 	ledger "github.com/formancehq/ledger/internal"
+	"github.com/formancehq/ledger/internal/queries"
 	"github.com/formancehq/ledger/internal/storage/common"
 	"github.com/formancehq/ledger/pkg/features"
 )
@@ -54,3 +57,91 @@ func Harness_C38_expand_accounts()     { c38Expand("accounts", "volumes", "effec
 func Harness_C38_expand_transactions() { c38Expand("transactions", "effectiveVolumes") }
 func Harness_C38_expand_logs()         { c38Expand("logs") }
 func Harness_C38_expand_volumes()      { c38Expand("volumes") }
+
+// ---- filters: every (field, operator) pair a resource's schema lets through validateFilters must be resolved by the
+// handler's ResolveFilter without a panic (ConvertOperatorToSQL panics on an operator it does not know).
+
+type c38Resolver func(operator, property string, value any) (string, []any, error)
+
+func c38FilterOps(schema queries.EntitySchema, resolve c38Resolver) {
+	names := make([]string, 0, len(schema.Fields))
+	for n := range schema.Fields {
+		names = append(names, n)
+	}
+	sort.Strings(names)
+	name := names[nondetChoice("field", len(names))]
+	field := schema.Fields[name]
+	ops := field.Type.Operators()
+	op := ops[nondetChoice("operator", len(ops))]
+	property := name
+	typ := field.Type
+	if field.Type.Index() != nil {
+		property = name + "[k1]"
+		if nondetChoice("indexed", 2) == 1 {
+			property = name // the bare map field (e.g. metadata, balance)
+		}
+		if op != queries.OperatorExists {
+			typ = field.Type.Index()
+		}
+	}
+	var value any
+	switch typ.(type) {
+	case queries.TypeString:
+		value = "users:"
+	case queries.TypeDate:
+		value = "2024-01-02T03:04:05Z"
+	case queries.TypeNumeric:
+		value = float64(5)
+	case queries.TypeBoolean:
+		value = true
+	default:
+		value = true // $exists on a map
+	}
+	if op == queries.OperatorIn {
+		value = []any{value}
+	}
+	if err := field.Type.ValidateValue(op, value); err != nil {
+		verifReach("end") // validateFilters refuses the pair: it never reaches the handler
+		return
+	}
+	sql, _, err := resolve(op, property, value)
+	verifAssert("C38:an-accepted-filter-is-resolved-or-refused-with-an-error", err != nil || sql != "")
+	verifReach("end")
+}
+
+func Harness_C38_filter_ops_accounts() {
+	h := accountsResourceHandler{store: c38Store()}
+	c38FilterOps(h.Schema(), func(o, p string, v any) (string, []any, error) {
+		return h.ResolveFilter(common.ResourceQuery[any]{}, o, p, v)
+	})
+}
+func Harness_C38_filter_ops_transactions() {
+	h := transactionsResourceHandler{store: c38Store()}
+	c38FilterOps(h.Schema(), func(o, p string, v any) (string, []any, error) {
+		return h.ResolveFilter(common.ResourceQuery[any]{}, o, p, v)
+	})
+}
+func Harness_C38_filter_ops_logs() {
+	h := logsResourceHandler{store: c38Store()}
+	c38FilterOps(h.Schema(), func(o, p string, v any) (string, []any, error) {
+		return h.ResolveFilter(common.ResourceQuery[any]{}, o, p, v)
+	})
+}
+func Harness_C38_filter_ops_schemas() {
+	h := schemasResourceHandler{store: c38Store()}
+	c38FilterOps(h.Schema(), func(o, p string, v any) (string, []any, error) {
+		return h.ResolveFilter(common.ResourceQuery[any]{}, o, p, v)
+	})
+}
+func Harness_C38_filter_ops_volumes() {
+	h := volumesResourceHandler{store: c38Store()}
+	c38FilterOps(h.Schema(), func(o, p string, v any) (string, []any, error) {
+		return h.ResolveFilter(common.ResourceQuery[ledger.GetVolumesOptions]{}, o, p, v)
+	})
+}
+func Harness_C38_filter_ops_aggregated() {
+	h := aggregatedBalancesResourceRepositoryHandler{store: c38Store()}
+	c38FilterOps(h.Schema(), func(o, p string, v any) (string, []any, error) {
+		return h.ResolveFilter(common.ResourceQuery[ledger.GetAggregatedVolumesOptions]{}, o, p, v)
+	})
+}
